@@ -121,13 +121,6 @@ theorem sequence_is_union (f : Nat) (cfg : PCfg) (inp opnd o2 : Ast) (st st1 st2
     seqLoop (f+1) cfg inp opnd st = seqLoop f cfg inp (.oper "|" opnd o2) st2 := by
   simp [seqLoop, hc, hn, h2, bind, Except.bind]
 
-/-- T0: the identity key is rendered as the model's `identityKey` assumes: length-prefixed prefix,
-local name (and value), then the sibling-index path -/
-theorem identity_key_recipe_ok :
-    Generated.hashKeyCases = ["AttributeNode,TextNode,CommentNode: writeKeyPart(&sb,n.Prefix()); writeKeyPart(&sb,n.LocalName()); writeKeyPart(&sb,n.Value())",
-      "ElementNode: writeKeyPart(&sb,n.Prefix()); writeKeyPart(&sb,n.LocalName())"] ∧
-    Generated.writeKeyPartSrc = "{sb.WriteString(strconv.Itoa(len(s)))sb.WriteByte(':')sb.WriteString(s)}" := ⟨rfl, rfl⟩
-
 /-! ## The identity key identifies nodes -/
 
 /-- **key injectivity**: on a well-formed document whose elements have no two attributes with the same
